@@ -159,41 +159,181 @@ fn binom_k<const K: usize>(nmax: u64) {
 }
 harness!(name=c17_binom_k00, prop=C17, mode=B, kind=normal, tier=quick, unwind=3, { binom_k::<0>(67) });
 harness!(name=c17_binom_k01, prop=C17, mode=B, kind=normal, tier=quick, unwind=4, { binom_k::<1>(67) });
-harness!(name=c17_binom_k02, prop=C17, mode=B, kind=normal, tier=quick, unwind=5, { binom_k::<2>(67) });
-harness!(name=c17_binom_k03, prop=C17, mode=B, kind=normal, tier=quick, unwind=6, { binom_k::<3>(67) });
+harness!(name=c17_binom_k02, prop=C17, mode=B, kind=normal, tier=thorough, unwind=5, { binom_k::<2>(67) });
+harness!(name=c17_binom_k03, prop=C17, mode=B, kind=normal, tier=thorough, unwind=6, { binom_k::<3>(67) });
 harness!(name=c17_binom_k04, prop=C17, mode=B, kind=normal, tier=thorough, unwind=7, { binom_k::<4>(67) });
-harness!(name=c17_binom_k05, prop=C17, mode=B, kind=normal, tier=quick, unwind=8, { binom_k::<5>(67) });
+harness!(name=c17_binom_k05, prop=C17, mode=B, kind=normal, tier=thorough, unwind=8, { binom_k::<5>(67) });
 harness!(name=c17_binom_k06, prop=C17, mode=B, kind=normal, tier=thorough, unwind=9, { binom_k::<6>(67) });
 harness!(name=c17_binom_k07, prop=C17, mode=B, kind=normal, tier=thorough, unwind=10, { binom_k::<7>(67) });
-harness!(name=c17_binom_k08, prop=C17, mode=B, kind=normal, tier=quick, unwind=11, { binom_k::<8>(67) });
+harness!(name=c17_binom_k08, prop=C17, mode=B, kind=normal, tier=thorough, unwind=11, { binom_k::<8>(67) });
 harness!(name=c17_binom_k09, prop=C17, mode=B, kind=normal, tier=thorough, unwind=12, { binom_k::<9>(67) });
 harness!(name=c17_binom_k10, prop=C17, mode=B, kind=normal, tier=thorough, unwind=13, { binom_k::<10>(67) });
 harness!(name=c17_binom_k11, prop=C17, mode=B, kind=normal, tier=thorough, unwind=14, { binom_k::<11>(67) });
 harness!(name=c17_binom_k12, prop=C17, mode=B, kind=normal, tier=thorough, unwind=15, { binom_k::<12>(67) });
-harness!(name=c17_binom_k13, prop=C17, mode=B, kind=normal, tier=quick, unwind=16, { binom_k::<13>(67) });
+harness!(name=c17_binom_k13, prop=C17, mode=B, kind=normal, tier=thorough, unwind=16, { binom_k::<13>(67) });
 harness!(name=c17_binom_k14, prop=C17, mode=B, kind=normal, tier=thorough, unwind=17, { binom_k::<14>(67) });
 harness!(name=c17_binom_k15, prop=C17, mode=B, kind=normal, tier=thorough, unwind=18, { binom_k::<15>(67) });
 harness!(name=c17_binom_k16, prop=C17, mode=B, kind=normal, tier=thorough, unwind=19, { binom_k::<16>(67) });
 harness!(name=c17_binom_k17, prop=C17, mode=B, kind=normal, tier=thorough, unwind=20, { binom_k::<17>(67) });
 harness!(name=c17_binom_k18, prop=C17, mode=B, kind=normal, tier=thorough, unwind=21, { binom_k::<18>(67) });
 harness!(name=c17_binom_k19, prop=C17, mode=B, kind=normal, tier=thorough, unwind=22, { binom_k::<19>(67) });
-harness!(name=c17_binom_k20, prop=C17, mode=B, kind=normal, tier=quick, unwind=23, { binom_k::<20>(67) });
+harness!(name=c17_binom_k20, prop=C17, mode=B, kind=normal, tier=thorough, unwind=23, { binom_k::<20>(67) });
 harness!(name=c17_binom_k21, prop=C17, mode=B, kind=normal, tier=thorough, unwind=24, { binom_k::<21>(67) });
 harness!(name=c17_binom_k22, prop=C17, mode=B, kind=normal, tier=thorough, unwind=25, { binom_k::<22>(67) });
 harness!(name=c17_binom_k23, prop=C17, mode=B, kind=normal, tier=thorough, unwind=26, { binom_k::<23>(67) });
 harness!(name=c17_binom_k24, prop=C17, mode=B, kind=normal, tier=thorough, unwind=27, { binom_k::<24>(67) });
 harness!(name=c17_binom_k25, prop=C17, mode=B, kind=normal, tier=thorough, unwind=28, { binom_k::<25>(67) });
 harness!(name=c17_binom_k26, prop=C17, mode=B, kind=normal, tier=thorough, unwind=29, { binom_k::<26>(67) });
-harness!(name=c17_binom_k27, prop=C17, mode=B, kind=normal, tier=quick, unwind=30, { binom_k::<27>(67) });
+harness!(name=c17_binom_k27, prop=C17, mode=B, kind=normal, tier=thorough, unwind=30, { binom_k::<27>(67) });
 harness!(name=c17_binom_k28, prop=C17, mode=B, kind=normal, tier=thorough, unwind=31, { binom_k::<28>(67) });
 harness!(name=c17_binom_k29, prop=C17, mode=B, kind=normal, tier=thorough, unwind=32, { binom_k::<29>(67) });
 harness!(name=c17_binom_k30, prop=C17, mode=B, kind=normal, tier=thorough, unwind=33, { binom_k::<30>(67) });
-harness!(name=c17_binom_k31, prop=C17, mode=B, kind=normal, tier=quick, unwind=34, { binom_k::<31>(67) });
-harness!(name=c17_binom_k32, prop=C17, mode=B, kind=normal, tier=quick, unwind=35, { binom_k::<32>(67) });
-harness!(name=c17_binom_k33, prop=C17, mode=B, kind=normal, tier=quick, unwind=36, { binom_k::<33>(67) });
+harness!(name=c17_binom_k31, prop=C17, mode=B, kind=normal, tier=thorough, unwind=34, { binom_k::<31>(67) });
+harness!(name=c17_binom_k32, prop=C17, mode=B, kind=normal, tier=thorough, unwind=35, { binom_k::<32>(67) });
+harness!(name=c17_binom_k33, prop=C17, mode=B, kind=normal, tier=thorough, unwind=36, { binom_k::<33>(67) });
 harness!(name=c17_binom_k02_n100, prop=C17, mode=B, kind=normal, tier=thorough, unwind=5, { binom_k::<2>(100) });
 harness!(name=c17_binom_k05_n100, prop=C17, mode=B, kind=normal, tier=thorough, unwind=8, { binom_k::<5>(100) });
 harness!(name=c17_binom_k10_n100, prop=C17, mode=B, kind=normal, tier=thorough, unwind=13, { binom_k::<10>(100) });
 harness!(name=c17_binom_k16_n100, prop=C17, mode=B, kind=normal, tier=thorough, unwind=19, { binom_k::<16>(100) });
 harness!(name=c17_binom_k24_n100, prop=C17, mode=B, kind=normal, tier=thorough, unwind=27, { binom_k::<24>(100) });
 harness!(name=c17_binom_k32_n100, prop=C17, mode=B, kind=normal, tier=thorough, unwind=35, { binom_k::<32>(100) });
+
+// ---- binomial coefficient, second decomposition: n concrete per instance, k symbolic
+// @bound c17_binomn_: N concrete per instance (quick: 14 instances incl. 62..68 and 100, a rotating third of the other N <= 67 by VERIF_SEED; thorough: every N in 0..=100), k symbolic in [0, N] with C(N,k) < 2^64
+// @claim c17_binomn_: for every k in [0, N]: binom_coeff(N,k) equals the exact integer C(N,k) (full Pascal triangle evaluated by the compiler in 128-bit arithmetic). Symmetry and Pascal's rule are consequences of exactness over all k in [0, N] and all instances N, N-1 (the exact integers satisfy them); the K-concrete instances assert them directly (B, integers; the loop's trip count min(k, N-k) is the symbolic quantity)
+// @cap c17_binomn_: 200
+const fn pascal_full() -> [[u64; 101]; 101] {
+    let mut out = [[0u64; 101]; 101];
+    let mut row = [0u128; 102];
+    row[0] = 1;
+    let mut n = 0;
+    while n <= 100 {
+        let mut k = 0;
+        while k <= n {
+            if row[k] <= u64::MAX as u128 {
+                out[n][k] = row[k] as u64;
+            }
+            k += 1;
+        }
+        // next row, in place from the right; saturate so that 128-bit additions cannot overflow
+        let mut j = n + 1;
+        while j >= 1 {
+            let s = row[j].saturating_add(row[j - 1]);
+            row[j] = s;
+            j -= 1;
+        }
+        n += 1;
+    }
+    out
+}
+static PASCAL: [[u64; 101]; 101] = pascal_full();
+fn binom_n<const N: usize>() {
+    let n = N as u64;
+    let k = inp::u64(0);
+    vassume!(k <= n);
+    let want = PASCAL[N][k as usize];
+    vassume!(want != 0);
+    let got = binom_coeff(n, k);
+    vassert!(got == want, "binom_coeff({}, {}) = {} want {}", n, k, got, want);
+}
+harness!(name=c17_binomn_000, prop=C17, mode=B, kind=normal, tier=quick, unwind=3, { binom_n::<0>() });
+harness!(name=c17_binomn_001, prop=C17, mode=B, kind=normal, tier=quick, unwind=3, { binom_n::<1>() });
+harness!(name=c17_binomn_002, prop=C17, mode=B, kind=normal, tier=quick, unwind=4, { binom_n::<2>() });
+harness!(name=c17_binomn_003, prop=C17, mode=B, kind=normal, tier=rot0, unwind=4, { binom_n::<3>() });
+harness!(name=c17_binomn_004, prop=C17, mode=B, kind=normal, tier=rot1, unwind=5, { binom_n::<4>() });
+harness!(name=c17_binomn_005, prop=C17, mode=B, kind=normal, tier=rot2, unwind=5, { binom_n::<5>() });
+harness!(name=c17_binomn_006, prop=C17, mode=B, kind=normal, tier=rot0, unwind=6, { binom_n::<6>() });
+harness!(name=c17_binomn_007, prop=C17, mode=B, kind=normal, tier=rot1, unwind=6, { binom_n::<7>() });
+harness!(name=c17_binomn_008, prop=C17, mode=B, kind=normal, tier=rot2, unwind=7, { binom_n::<8>() });
+harness!(name=c17_binomn_009, prop=C17, mode=B, kind=normal, tier=rot0, unwind=7, { binom_n::<9>() });
+harness!(name=c17_binomn_010, prop=C17, mode=B, kind=normal, tier=quick, unwind=8, { binom_n::<10>() });
+harness!(name=c17_binomn_011, prop=C17, mode=B, kind=normal, tier=rot2, unwind=8, { binom_n::<11>() });
+harness!(name=c17_binomn_012, prop=C17, mode=B, kind=normal, tier=rot0, unwind=9, { binom_n::<12>() });
+harness!(name=c17_binomn_013, prop=C17, mode=B, kind=normal, tier=rot1, unwind=9, { binom_n::<13>() });
+harness!(name=c17_binomn_014, prop=C17, mode=B, kind=normal, tier=rot2, unwind=10, { binom_n::<14>() });
+harness!(name=c17_binomn_015, prop=C17, mode=B, kind=normal, tier=rot0, unwind=10, { binom_n::<15>() });
+harness!(name=c17_binomn_016, prop=C17, mode=B, kind=normal, tier=rot1, unwind=11, { binom_n::<16>() });
+harness!(name=c17_binomn_017, prop=C17, mode=B, kind=normal, tier=rot2, unwind=11, { binom_n::<17>() });
+harness!(name=c17_binomn_018, prop=C17, mode=B, kind=normal, tier=rot0, unwind=12, { binom_n::<18>() });
+harness!(name=c17_binomn_019, prop=C17, mode=B, kind=normal, tier=rot1, unwind=12, { binom_n::<19>() });
+harness!(name=c17_binomn_020, prop=C17, mode=B, kind=normal, tier=rot2, unwind=13, { binom_n::<20>() });
+harness!(name=c17_binomn_021, prop=C17, mode=B, kind=normal, tier=rot0, unwind=13, { binom_n::<21>() });
+harness!(name=c17_binomn_022, prop=C17, mode=B, kind=normal, tier=rot1, unwind=14, { binom_n::<22>() });
+harness!(name=c17_binomn_023, prop=C17, mode=B, kind=normal, tier=rot2, unwind=14, { binom_n::<23>() });
+harness!(name=c17_binomn_024, prop=C17, mode=B, kind=normal, tier=rot0, unwind=15, { binom_n::<24>() });
+harness!(name=c17_binomn_025, prop=C17, mode=B, kind=normal, tier=rot1, unwind=15, { binom_n::<25>() });
+harness!(name=c17_binomn_026, prop=C17, mode=B, kind=normal, tier=rot2, unwind=16, { binom_n::<26>() });
+harness!(name=c17_binomn_027, prop=C17, mode=B, kind=normal, tier=rot0, unwind=16, { binom_n::<27>() });
+harness!(name=c17_binomn_028, prop=C17, mode=B, kind=normal, tier=rot1, unwind=17, { binom_n::<28>() });
+harness!(name=c17_binomn_029, prop=C17, mode=B, kind=normal, tier=rot2, unwind=17, { binom_n::<29>() });
+harness!(name=c17_binomn_030, prop=C17, mode=B, kind=normal, tier=rot0, unwind=18, { binom_n::<30>() });
+harness!(name=c17_binomn_031, prop=C17, mode=B, kind=normal, tier=rot1, unwind=18, { binom_n::<31>() });
+harness!(name=c17_binomn_032, prop=C17, mode=B, kind=normal, tier=rot2, unwind=19, { binom_n::<32>() });
+harness!(name=c17_binomn_033, prop=C17, mode=B, kind=normal, tier=quick, unwind=19, { binom_n::<33>() });
+harness!(name=c17_binomn_034, prop=C17, mode=B, kind=normal, tier=quick, unwind=20, { binom_n::<34>() });
+harness!(name=c17_binomn_035, prop=C17, mode=B, kind=normal, tier=rot2, unwind=20, { binom_n::<35>() });
+harness!(name=c17_binomn_036, prop=C17, mode=B, kind=normal, tier=rot0, unwind=21, { binom_n::<36>() });
+harness!(name=c17_binomn_037, prop=C17, mode=B, kind=normal, tier=rot1, unwind=21, { binom_n::<37>() });
+harness!(name=c17_binomn_038, prop=C17, mode=B, kind=normal, tier=rot2, unwind=22, { binom_n::<38>() });
+harness!(name=c17_binomn_039, prop=C17, mode=B, kind=normal, tier=rot0, unwind=22, { binom_n::<39>() });
+harness!(name=c17_binomn_040, prop=C17, mode=B, kind=normal, tier=rot1, unwind=23, { binom_n::<40>() });
+harness!(name=c17_binomn_041, prop=C17, mode=B, kind=normal, tier=rot2, unwind=23, { binom_n::<41>() });
+harness!(name=c17_binomn_042, prop=C17, mode=B, kind=normal, tier=rot0, unwind=24, { binom_n::<42>() });
+harness!(name=c17_binomn_043, prop=C17, mode=B, kind=normal, tier=rot1, unwind=24, { binom_n::<43>() });
+harness!(name=c17_binomn_044, prop=C17, mode=B, kind=normal, tier=rot2, unwind=25, { binom_n::<44>() });
+harness!(name=c17_binomn_045, prop=C17, mode=B, kind=normal, tier=rot0, unwind=25, { binom_n::<45>() });
+harness!(name=c17_binomn_046, prop=C17, mode=B, kind=normal, tier=rot1, unwind=26, { binom_n::<46>() });
+harness!(name=c17_binomn_047, prop=C17, mode=B, kind=normal, tier=rot2, unwind=26, { binom_n::<47>() });
+harness!(name=c17_binomn_048, prop=C17, mode=B, kind=normal, tier=rot0, unwind=27, { binom_n::<48>() });
+harness!(name=c17_binomn_049, prop=C17, mode=B, kind=normal, tier=rot1, unwind=27, { binom_n::<49>() });
+harness!(name=c17_binomn_050, prop=C17, mode=B, kind=normal, tier=rot2, unwind=28, { binom_n::<50>() });
+harness!(name=c17_binomn_051, prop=C17, mode=B, kind=normal, tier=rot0, unwind=28, { binom_n::<51>() });
+harness!(name=c17_binomn_052, prop=C17, mode=B, kind=normal, tier=rot1, unwind=29, { binom_n::<52>() });
+harness!(name=c17_binomn_053, prop=C17, mode=B, kind=normal, tier=rot2, unwind=29, { binom_n::<53>() });
+harness!(name=c17_binomn_054, prop=C17, mode=B, kind=normal, tier=rot0, unwind=30, { binom_n::<54>() });
+harness!(name=c17_binomn_055, prop=C17, mode=B, kind=normal, tier=rot1, unwind=30, { binom_n::<55>() });
+harness!(name=c17_binomn_056, prop=C17, mode=B, kind=normal, tier=rot2, unwind=31, { binom_n::<56>() });
+harness!(name=c17_binomn_057, prop=C17, mode=B, kind=normal, tier=rot0, unwind=31, { binom_n::<57>() });
+harness!(name=c17_binomn_058, prop=C17, mode=B, kind=normal, tier=rot1, unwind=32, { binom_n::<58>() });
+harness!(name=c17_binomn_059, prop=C17, mode=B, kind=normal, tier=rot2, unwind=32, { binom_n::<59>() });
+harness!(name=c17_binomn_060, prop=C17, mode=B, kind=normal, tier=rot0, unwind=33, { binom_n::<60>() });
+harness!(name=c17_binomn_061, prop=C17, mode=B, kind=normal, tier=rot1, unwind=33, { binom_n::<61>() });
+harness!(name=c17_binomn_062, prop=C17, mode=B, kind=normal, tier=quick, unwind=34, { binom_n::<62>() });
+harness!(name=c17_binomn_063, prop=C17, mode=B, kind=normal, tier=quick, unwind=34, { binom_n::<63>() });
+harness!(name=c17_binomn_064, prop=C17, mode=B, kind=normal, tier=quick, unwind=35, { binom_n::<64>() });
+harness!(name=c17_binomn_065, prop=C17, mode=B, kind=normal, tier=quick, unwind=35, { binom_n::<65>() });
+harness!(name=c17_binomn_066, prop=C17, mode=B, kind=normal, tier=quick, unwind=36, { binom_n::<66>() });
+harness!(name=c17_binomn_067, prop=C17, mode=B, kind=normal, tier=quick, unwind=36, { binom_n::<67>() });
+harness!(name=c17_binomn_068, prop=C17, mode=B, kind=normal, tier=quick, unwind=37, { binom_n::<68>() });
+harness!(name=c17_binomn_069, prop=C17, mode=B, kind=normal, tier=thorough, unwind=37, { binom_n::<69>() });
+harness!(name=c17_binomn_070, prop=C17, mode=B, kind=normal, tier=thorough, unwind=38, { binom_n::<70>() });
+harness!(name=c17_binomn_071, prop=C17, mode=B, kind=normal, tier=thorough, unwind=38, { binom_n::<71>() });
+harness!(name=c17_binomn_072, prop=C17, mode=B, kind=normal, tier=thorough, unwind=39, { binom_n::<72>() });
+harness!(name=c17_binomn_073, prop=C17, mode=B, kind=normal, tier=thorough, unwind=39, { binom_n::<73>() });
+harness!(name=c17_binomn_074, prop=C17, mode=B, kind=normal, tier=thorough, unwind=40, { binom_n::<74>() });
+harness!(name=c17_binomn_075, prop=C17, mode=B, kind=normal, tier=thorough, unwind=40, { binom_n::<75>() });
+harness!(name=c17_binomn_076, prop=C17, mode=B, kind=normal, tier=thorough, unwind=41, { binom_n::<76>() });
+harness!(name=c17_binomn_077, prop=C17, mode=B, kind=normal, tier=thorough, unwind=41, { binom_n::<77>() });
+harness!(name=c17_binomn_078, prop=C17, mode=B, kind=normal, tier=thorough, unwind=42, { binom_n::<78>() });
+harness!(name=c17_binomn_079, prop=C17, mode=B, kind=normal, tier=thorough, unwind=42, { binom_n::<79>() });
+harness!(name=c17_binomn_080, prop=C17, mode=B, kind=normal, tier=thorough, unwind=43, { binom_n::<80>() });
+harness!(name=c17_binomn_081, prop=C17, mode=B, kind=normal, tier=thorough, unwind=43, { binom_n::<81>() });
+harness!(name=c17_binomn_082, prop=C17, mode=B, kind=normal, tier=thorough, unwind=44, { binom_n::<82>() });
+harness!(name=c17_binomn_083, prop=C17, mode=B, kind=normal, tier=thorough, unwind=44, { binom_n::<83>() });
+harness!(name=c17_binomn_084, prop=C17, mode=B, kind=normal, tier=thorough, unwind=45, { binom_n::<84>() });
+harness!(name=c17_binomn_085, prop=C17, mode=B, kind=normal, tier=thorough, unwind=45, { binom_n::<85>() });
+harness!(name=c17_binomn_086, prop=C17, mode=B, kind=normal, tier=thorough, unwind=46, { binom_n::<86>() });
+harness!(name=c17_binomn_087, prop=C17, mode=B, kind=normal, tier=thorough, unwind=46, { binom_n::<87>() });
+harness!(name=c17_binomn_088, prop=C17, mode=B, kind=normal, tier=thorough, unwind=47, { binom_n::<88>() });
+harness!(name=c17_binomn_089, prop=C17, mode=B, kind=normal, tier=thorough, unwind=47, { binom_n::<89>() });
+harness!(name=c17_binomn_090, prop=C17, mode=B, kind=normal, tier=thorough, unwind=48, { binom_n::<90>() });
+harness!(name=c17_binomn_091, prop=C17, mode=B, kind=normal, tier=thorough, unwind=48, { binom_n::<91>() });
+harness!(name=c17_binomn_092, prop=C17, mode=B, kind=normal, tier=thorough, unwind=49, { binom_n::<92>() });
+harness!(name=c17_binomn_093, prop=C17, mode=B, kind=normal, tier=thorough, unwind=49, { binom_n::<93>() });
+harness!(name=c17_binomn_094, prop=C17, mode=B, kind=normal, tier=thorough, unwind=50, { binom_n::<94>() });
+harness!(name=c17_binomn_095, prop=C17, mode=B, kind=normal, tier=thorough, unwind=50, { binom_n::<95>() });
+harness!(name=c17_binomn_096, prop=C17, mode=B, kind=normal, tier=thorough, unwind=51, { binom_n::<96>() });
+harness!(name=c17_binomn_097, prop=C17, mode=B, kind=normal, tier=thorough, unwind=51, { binom_n::<97>() });
+harness!(name=c17_binomn_098, prop=C17, mode=B, kind=normal, tier=thorough, unwind=52, { binom_n::<98>() });
+harness!(name=c17_binomn_099, prop=C17, mode=B, kind=normal, tier=thorough, unwind=52, { binom_n::<99>() });
+harness!(name=c17_binomn_100, prop=C17, mode=B, kind=normal, tier=quick, unwind=53, { binom_n::<100>() });
